@@ -27,6 +27,9 @@ class Mon(Monitor):
                     continue
                 if not pending_before(w, r) and not (r.call_step == w.step):
                     continue
+                if r.call_step == w.step and r.failed and r.fires[0][2] == 'MQTTStateError' and \
+                        self._called_after_loss(w, r, o):
+                    continue        # a call made (re-entrantly) after the loss was reported and refused for that reason
                 stage = self._stage(r)
                 if r.pending:
                     out.append(V('notfailed', 'pending-after-clean-loss/%s/%s' % (r.kind, stage),
@@ -59,6 +62,15 @@ class Mon(Monitor):
                              '%s of request %d (made on connection %d, clean session) written on connection %d' % (
                                  p['type'], r.idx, r.conn, ci)))
         return out
+
+    def _called_after_loss(self, w, r, lost_obs):
+        seen = False
+        for x in w.new_obs():
+            if x is lost_obs:
+                seen = True
+            if x[0] == 'call' and x[1] == r.idx:
+                return seen
+        return False
 
     def _acked_in_step(self, w, r):
         from ..monitor import rx_packets
@@ -131,6 +143,9 @@ def scenarios(ctx):
                        init=(('connect', 0, True, 3, 4), ('connack', 0, 0, False)), reconnects=[(True, 0, 4)],
                        budgets=dict(pub=2 if q else 3, ack=1 if q else 2, tick=3, lose=1, rebuild=1, connect=1, connack=1),
                        pub_qos=(1, 2)))
+    out.append(Scn('pub-reenter-errback', profile='pub', mode='async', init=CONNECTED, reconnects=[(True, 0, 4)],
+                   reenter=('err:pub>pub',), windows=(1, 2), pub_qos=(1, 2),
+                   budgets=dict(pub=2, ack=1, lose=1, disconnect=1, rebuild=1, connect=1, connack=1, setwin=1, tick=1)))
     out.append(Scn('pub-queue-w1', profile='pub', mode='sync', init=CONNECTED, reconnects=[(True, 0, 4)],
                    budgets=dict(pub=4 if q else 5, ack=0 if q else 1, lose=1, disconnect=1, rebuild=1, connect=1, connack=1,
                                 tick=0 if q else 1),
